@@ -113,6 +113,17 @@ def _get_minimum_numpy_datatype(
     raise ValueError(f"Unsupported data encoding: {data_encoding}")
 
 
+def _as_array(values: list, datatype: Optional[str]):
+    """Create a numpy array of the requested dtype from a list of parsed values.
+
+    Binary values are converted to plain ``bytes`` objects first: numpy does not determine the item size of
+    ``bytes`` subclasses (such as ``BinaryParameter``) from their length and silently truncates them.
+    """
+    if datatype == "bytes":
+        values = [bytes(value) for value in values]
+    return np.asarray(values, dtype=datatype)
+
+
 def create_dataset(
         packet_files: Union[str, Path, Iterable[Union[str, Path]]],
         xtce_packet_definition: Union[str, Path, definitions.XtcePacketDefinition],
@@ -205,7 +216,7 @@ def create_dataset(
     for apid, data in data_dict.items():
         ds = xr.Dataset(
             data_vars={
-                key: (["packet"], np.asarray(list_of_values, dtype=datatype_mapping[apid][key]))
+                key: (["packet"], _as_array(list_of_values, datatype_mapping[apid][key]))
                 for key, list_of_values in data.items()
             }
         )
